@@ -3,8 +3,11 @@
 Translated model: on every run `regenerate` probes the CURRENT /repo
 (harness/extract_vocab.py: the code's own dispatch tables + the observed disposition of every
 name of the MongoDB 5.0 vocabulary, near-miss and seeded random `$names`, at every syntactic
-position; harness/extract_options.py: every public method x option x ignore_feature setting) and
-rewrites lean/Generated/{Tables,Vocab,Options}.lean.  The proof step then re-checks the theorems
+position; harness/extract_sites.py: the parts of the stage specifications that reach one of the
+shared dispatch helpers of the pipeline language - derived from the syntax tree of
+mongomock/aggregate.py and a traced run of every stage - and the disposition of the names there;
+harness/extract_options.py: every public method x option x ignore_feature setting) and
+rewrites lean/Generated/{Tables,Vocab,Sites,Options}.lean.  The proof step then re-checks the theorems
 of lean/Props/C20.lean against the regenerated tables.  `run` states the property directly on
 the probe results: an entry that is `ignored` / an option that is dropped silently and is not a
 listed known finding is a VIOLATION whose replay is the probing call.
@@ -16,11 +19,12 @@ import random
 
 import common
 import extract_options
+import extract_sites
 import extract_vocab
 import gen_c20_lean
 import wire
 
-EXTRA_TARGETS = ('Generated.Tables', 'Generated.Vocab', 'Generated.Options')
+EXTRA_TARGETS = ('Generated.Tables', 'Generated.Vocab', 'Generated.Sites', 'Generated.Options')
 
 RULE = ('case = one (position, name) pair [every $-name of the MongoDB 5.0 vocabulary, of the '
         'code\'s own tables, near-miss and seeded random names, at each of 16 syntactic positions; '
@@ -43,13 +47,37 @@ ASSUMPTIONS = [
     'exactly what one way of removing the name gives; the probes use several argument shapes '
     'chosen so that an implementation has to change the result',
     'expression operators are probed on a non-empty collection (on an empty one no expression is '
-    'ever parsed); projection operators and $bucket/$facet sub-positions are not probed',
+    'ever parsed: stages validate lazily); the same holds for the consumer sites of the pipeline '
+    'language, which are probed on the populated collection (the empty one is used only for the '
+    'calls nothing reaches otherwise); projection operators of find() are not probed',
+    'consumer sites: the parts of a stage specification that reach a dispatcher are found by '
+    'running every stage that has a handler on ONE fully-optioned specification '
+    '(extract_sites.STAGE_FIXTURES, else the argument shapes of the vocabulary file); a call of '
+    'a dispatch helper in the source that no such run reaches is reported, not skipped; the '
+    'operand positions INSIDE an expression operator (the recursion of _Parser) are covered by '
+    'the lazy-context probes only; consumers of filter_applies outside aggregate.py ($pull '
+    'conditions, positional operators, partial indexes) are not derived',
+    'at a consumer site a name of the code\'s own tables counts as implemented when the call '
+    'returns and the site has handed the name to its dispatcher (observed by wrapping the '
+    'helper), as ignored when the call returns without the dispatcher ever seeing the name: '
+    'what the dispatcher then does with the name is judged at the base position',
     'pymongo/bson are not installed: Decimal128 branches ($toInt/$toLong/$toDecimal) are observed '
     'in their "no bson" form, and the deprecated pymongo<4 methods do not exist',
     'a method whose plain call (without the option) raises is listed as unprobed',
 ]
 
 GEN = os.path.join(common.LEAN, 'Generated')
+
+
+def known_site_pairs():
+    """[(site id, name)] listed as known findings (position `site:<id>`)"""
+    out = []
+    for e in common.load_known('C20'):
+        w = e.get('witness') or {}
+        if e.get('status') == 'known' and w.get('kind') == 'vocab' and \
+                str(w.get('position', '')).startswith('site:'):
+            out.append((w['position'][5:], w['name']))
+    return sorted(out)
 
 
 def known_lists():
@@ -59,6 +87,8 @@ def known_lists():
             continue
         w = e['witness']
         if w['kind'] == 'lazyctx':
+            continue
+        if w['kind'] == 'vocab' and str(w['position']).startswith('site:'):
             continue
         if w['kind'] == 'vocab':
             if w['name'] == '*':
@@ -80,21 +110,36 @@ def regenerate(ctx):
     opts = extract_options.probe_options()
     pairs = extract_options.probe_pairs(opts)
     kpos, kpairs, ksilent, koptout = known_lists()
+    derived = extract_sites.derive_sites(T)
+    site_entries = extract_sites.probe_sites(
+        extract_vocab.Prober(T, extract_vocab.load_vocab()), meta['kinds'], derived,
+        everything=not ctx.quick())
     changed = []
     for fname, text in (
             ('Tables.lean', gen_c20_lean.emit_tables(T)),
             ('Vocab.lean', gen_c20_lean.emit_vocab(T, entries, kpos, kpairs)),
+            ('Sites.lean', gen_c20_lean.emit_sites(T, derived, site_entries,
+                                                   known_site_pairs())),
             ('Options.lean', gen_c20_lean.emit_options(opts, ksilent, koptout, pairs))):
         if gen_c20_lean.write_if_changed(os.path.join(GEN, fname), text):
             changed.append(fname)
     ctx.c20 = {'T': T, 'entries': entries, 'meta': meta, 'opts': opts, 'pairs': pairs,
-               'changed': changed}
+               'derived': derived, 'site_entries': site_entries, 'changed': changed}
     return ctx.c20
 
 
 # ---------------------------------------------------------------------------------------------
 
 def vocab_replay(e, kind):
+    out = _vocab_replay(e, kind)
+    if 'base' in e:      # a consumer site of a shared dispatcher (extract_sites.py)
+        out['dispatcher_position'] = e['base']
+        out['calls_that_handed_the_name_to_the_dispatcher'] = e.get('handed_to_dispatcher')
+        out.update(e.get('site_info') or {})
+    return out
+
+
+def _vocab_replay(e, kind):
     return {'kind': kind, 'what': 'vocab', 'position': e['pos'], 'name': e['name'],
             'observed': e['disp'], 'in_code_table': e['in_table'],
             'python': 'import datetime, mongomock; db = mongomock.MongoClient().db  # documents: '
@@ -122,7 +167,7 @@ def _name_rank(ctx, name):
     return 0
 
 
-def judge_vocab(ctx, entries, kpos, kpairs):
+def judge_vocab(ctx, entries, kpos, kpairs, ksites=()):
     """the property, stated directly on the probe results"""
     bad = []
     for e in entries:
@@ -130,7 +175,8 @@ def judge_vocab(ctx, entries, kpos, kpairs):
             continue
         if e['pos'] in kpos:
             fid = 'ignored:%s:*' % e['pos']
-        elif (e['pos'], e['name']) in kpairs:
+        elif (e['pos'], e['name']) in kpairs or \
+                (e['pos'].startswith('site:') and (e['pos'][5:], e['name']) in ksites):
             fid = 'ignored:%s:%s' % (e['pos'], e['name'])
         else:
             fid = None
@@ -140,11 +186,66 @@ def judge_vocab(ctx, entries, kpos, kpairs):
             bad.append(e)
             if ctx.too_many():
                 continue
-            ctx.violation(vocab_replay(
-                e, 'the operator is accepted and ignored: the call returns what it returns '
-                   'without the operator' if e['in_table'] else
-                   'a name that nothing implements is accepted silently instead of raising'),
-                rank=_name_rank(ctx, e['name']) + len(e['probe'] or ''))
+            if 'base' in e and e['in_table']:
+                kind = ('the stage accepts the operator and never hands it to the dispatcher of '
+                        'its family: the call returns as if the operator were not there')
+            elif 'base' in e:
+                kind = ('a name that nothing implements is accepted silently at this part of the '
+                        'stage instead of raising as it does where the dispatcher is called '
+                        'directly')
+            elif e['in_table']:
+                kind = ('the operator is accepted and ignored: the call returns what it returns '
+                        'without the operator')
+            else:
+                kind = 'a name that nothing implements is accepted silently instead of raising'
+            ctx.violation(vocab_replay(e, kind),
+                          rank=_name_rank(ctx, e['name']) + len(e['probe'] or ''))
+    return bad
+
+
+def site_info(derived):
+    """site index -> what the replay says about the site"""
+    return {s['index']: {'site': {'stage': s['stage'], 'key_path': s['path'],
+                                  'family': s['family'], 'reaches': s['helper'],
+                                  'called_from': '%s (mongomock/aggregate.py:%d)'
+                                                 % (s['function'], s['line']),
+                                  'collection': s['context']}}
+            for s in derived['sites']}
+
+
+def judge_site_list(ctx, derived):
+    """the list of sites must be complete for the source: every call of a dispatch helper is
+    reached by a probed site, every dispatcher of the source has a family, every stage that has
+    a handler has a specification to run"""
+    problems = []
+    for s in derived['uncovered']:
+        problems.append('the call of %s in %s (mongomock/aggregate.py:%d) is reached by no probed '
+                        'stage specification: the names it dispatches are not probed'
+                        % (s['helper'], s['function'], s['line']))
+    for d in derived['unknown_dispatchers']:
+        problems.append('%s (mongomock/aggregate.py:%d) dispatches on $-names (%s) of no known '
+                        'family' % (d['function'], d['line'], d['why']))
+    for st in derived['stages_without_fixture']:
+        problems.append('stage %s has a handler and no specification to probe it with '
+                        '(extract_sites.STAGE_FIXTURES / args.stage of the vocabulary file)' % st)
+    for a in derived['unattributed_calls']:
+        problems.append('a call of %s from mongomock/aggregate.py:%s matches no call in the syntax '
+                        'tree' % tuple(a))
+    for msg in problems:
+        ctx.violation({'kind': 'the list of dispatch sites derived from the source is incomplete',
+                       'what': msg, 'what_no_longer_checks': 'theorem every_call_site_probed'},
+                      no_input=True)
+    return problems
+
+
+def compare_sites_with_model(entries):
+    """a site follows its dispatcher or raises (the statement of sites_follow_dispatch, evaluated
+    by the compiled model) -> entries that do neither"""
+    out = wire.run_driver(model_lines([(e['base'], e['name']) for e in entries]))
+    bad = []
+    for e, m in zip(entries, out):
+        if m.strip() != e['disp'] and e['disp'] not in ('raisesNotImplemented', 'raisesOther'):
+            bad.append((e, m.strip()))
     return bad
 
 
@@ -299,7 +400,14 @@ def run(ctx, proof, driver_ok):
     T, entries, meta, opts = st['T'], st['entries'], st['meta'], st['opts']
     V = extract_vocab.load_vocab()
     kpos, kpairs, ksilent, koptout = known_lists()
+    ksites = known_site_pairs()
+    derived, site_entries = st['derived'], st['site_entries']
+    info = site_info(derived)
+    for e in site_entries:
+        e['site_info'] = info[e['site']]
     bad_vocab = judge_vocab(ctx, entries, kpos, kpairs)
+    bad_sites = judge_vocab(ctx, site_entries, kpos, kpairs, ksites)
+    site_list_problems = judge_site_list(ctx, derived)
     bad_opts = judge_options(ctx, opts, ksilent, koptout)
     pairs = st.get('pairs') or []
     bad_pairs = judge_pairs(ctx, pairs, ksilent)
@@ -312,6 +420,7 @@ def run(ctx, proof, driver_ok):
     # correspondence of the dispatch model with the code, through the compiled model
     model = {'available': False}
     extra_entries = []
+    extra_site_entries = []
     have_driver = ensure_driver(proof)
     if have_driver:
         try:
@@ -323,11 +432,32 @@ def run(ctx, proof, driver_ok):
                 for nm in names:
                     for pos in extract_vocab.POSITIONS:
                         extra_entries.append(extract_vocab.probe_entry(prober, counters, pos, nm))
+                # ... and a part of them at every consumer site
+                site_prober = extract_vocab.Prober(T, V)
+                for nm in names[:ctx.n(20, 400)]:
+                    for site in derived['sites']:
+                        for base in extract_sites.FAMILY_POSITIONS[site['family']]:
+                            e = extract_sites.probe_site_entry(site_prober, counters, site, base,
+                                                               nm, derived)
+                            e['site_info'] = info[e['site']]
+                            extra_site_entries.append(e)
             mism_extra = compare_with_model(ctx, extra_entries, 'random')
             judge_vocab(ctx, extra_entries, kpos, kpairs)
+            judge_vocab(ctx, extra_site_entries, kpos, kpairs, ksites)
+            mism_sites = compare_sites_with_model(site_entries + extra_site_entries)
             model = {'available': True, 'table_entries_compared': len(entries),
                      'random_names': len(names), 'random_entries_compared': len(extra_entries),
-                     'mismatches': len(mism) + len(mism_extra)}
+                     'site_entries_compared': len(site_entries) + len(extra_site_entries),
+                     'mismatches': len(mism) + len(mism_extra) + len(mism_sites)}
+            for e, m in mism_sites[:20]:
+                if e['disp'] == 'ignored':
+                    continue       # already reported (or known) as the property failing
+                ctx.violation(dict(vocab_replay(
+                    e, 'correspondence broken: at this part of the stage the name is %s, the '
+                       'dispatcher it is handed to (MongoModel.Vocab.dispatch over the '
+                       'regenerated tables, position %s) says %s' % (e['disp'], e['base'], m)),
+                    model=m, what_no_longer_checks='theorem sites_follow_dispatch'),
+                    no_input=True)
             for e, m in (mism + mism_extra)[:20]:
                 if e['disp'] == 'ignored':
                     continue       # already reported (or known) as the property failing
@@ -353,6 +483,7 @@ def run(ctx, proof, driver_ok):
 
     # evidence
     everything = entries + extra_entries
+    all_sites = site_entries + extra_site_entries
     hist = collections.Counter(e['disp'] for e in everything)
     per_pos = collections.OrderedDict()
     for p in extract_vocab.POSITIONS:
@@ -361,6 +492,9 @@ def run(ctx, proof, driver_ok):
     for e in everything:
         if e['reached']:
             nontrivial.add(common.case_hash(['v', e['pos'], e['name']]))
+    for e in all_sites:
+        if e['reached']:
+            nontrivial.add(common.case_hash(['s', e['pos'], e['base'], e['name']]))
     for e in opts:
         if e['reached']:
             nontrivial.add(common.case_hash(['o', e['cls'], e['method'], e['option'],
@@ -382,7 +516,7 @@ def run(ctx, proof, driver_ok):
             samples.append({k: e[k] for k in ('cls', 'method', 'option', 'optedOut', 'disp',
                                               'call')})
     return {
-        'evaluations': meta['calls'] + sum(e['calls'] for e in extra_entries) + 2 * len(
+        'evaluations': meta['calls'] + sum(e['calls'] for e in extra_entries + all_sites) + 2 * len(
             [e for e in opts if e['disp'] != 'unprobed']) + len(pairs) + switch_checks,
         'distinct_nontrivial': len(nontrivial),
         'rule': RULE,
@@ -391,6 +525,19 @@ def run(ctx, proof, driver_ok):
         'type_aliases': len(meta['aliases']),
         'seeded_random_names_in_table': meta['random_names'],
         'positions': extract_vocab.POSITIONS,
+        'dispatch_helpers': ['%s (%s)' % (attr, fam) for _, attr, fam in derived['helpers']],
+        'dispatchers_in_source': derived['dispatchers_in_source'],
+        'helper_calls_in_source': len(derived['static']),
+        'helper_calls_not_reached': len(derived['uncovered']),
+        'sites': [{'id': s['id'], 'called_from': '%s:%d' % (s['function'], s['line']),
+                   'reaches': s['helper'],
+                   'dispositions': dict(collections.Counter(
+                       e['disp'] for e in all_sites if e['site'] == s['index']))}
+                  for s in derived['sites']],
+        'site_entries': len(all_sites),
+        'site_entries_not_reaching_dispatch': len([e for e in all_sites if not e['reached']]),
+        'site_list_problems': site_list_problems,
+        'unlisted_ignored_site_entries': len(bad_sites),
         'lazy_expression_contexts': lazy,
         'table_entries': len(entries),
         'dispositions': dict(hist),
@@ -417,7 +564,20 @@ def run(ctx, proof, driver_ok):
 def replay(ctx, path):
     e = json.load(open(path))
     kpos, kpairs, ksilent, koptout = known_lists()
-    if e.get('what') == 'vocab':
+    if e.get('what') == 'vocab' and str(e.get('position', '')).startswith('site:'):
+        now = extract_sites.probe_one(e['position'][5:], e['dispatcher_position'], e['name'])
+        print(json.dumps(now and {k: now[k] for k in ('pos', 'base', 'name', 'disp', 'in_table',
+                                                      'errors', 'returned', 'probe')}))
+        ctx.c20 = {'meta': {'kinds': {}}}
+        if now is None:
+            print(json.dumps({'note': 'the source no longer has this site', 'file': path}))
+        else:
+            judge_vocab(ctx, [now], kpos, kpairs, known_site_pairs())
+            if not ctx.violations and e.get('model') is not None and os.path.exists(wire.DRIVER):
+                for _, m in compare_sites_with_model([now]):
+                    ctx.violation(dict(vocab_replay(now, 'correspondence broken'), model=m),
+                                  no_input=True)
+    elif e.get('what') == 'vocab':
         now = extract_vocab.probe_one(e['position'], e['name'], ctx.seed)
         print(json.dumps({k: now[k] for k in ('pos', 'name', 'disp', 'in_table', 'errors',
                                               'returned', 'probe')}))
@@ -454,6 +614,9 @@ def replay_finding(ctx, e):
     if w['kind'] == 'lazyctx':
         import c20_lazyctx
         return w['context'] in c20_lazyctx.silent_contexts()
+    if w['kind'] == 'vocab' and str(w['position']).startswith('site:'):
+        now = extract_sites.probe_one(w['position'][5:], w['dispatcher_position'], w['name'])
+        return now is not None and now['disp'] == 'ignored'
     if w['kind'] == 'vocab':
         name = w['representative'] if w['name'] == '*' else w['name']
         return extract_vocab.probe_one(w['position'], name)['disp'] == 'ignored'
